@@ -75,13 +75,15 @@ def run_c16(tier, seed):
         add([[("MSETNX", [b"p", b"%d" % i, b"q", b"%d" % i]), ("MGET", [b"p", b"q"])] for i in range(n)], "%d clients MSETNX all-or-nothing then MGET" % n)
         add([[("GETSET", [b"g", b"%d" % i])] * 2 for i in range(n)], "%d clients x 2 GETSET chain" % n)
         add([[("DECRBY", [b"c", b"1"]), ("INCR", [b"c"]), ("GET", [b"c"])] for _ in range(n)], "%d clients DECRBY / INCR / GET" % n)
-        # arguments larger than the usual I/O buffers (parsed outside the command lock): what a GET returns was written by somebody
-        add([[("SET", [b"big%d" % i, bytes([65 + i]) * 8192 + b"#%d" % i]), ("GET", [b"big%d" % i]), ("SET", [b"shared", bytes([97 + i]) * 5000]), ("GET", [b"shared"])] for i in range(n)],
-            "%d clients SET / GET their own and a shared key with 5..8 KB values" % n)
         add([[("INCR", [b"c"])] * 3 for _ in range(n)], "%d clients x 3 INCR on one key" % n, pw=b"secret")
         add([[("APPEND", [b"a", b"%d" % i])] * 2 for i in range(n)], "%d clients x 2 APPEND" % n, pw=b"secret")
     reps = 40 if tier == "quick" else 400
     cases = cases * reps
+    # arguments larger than the usual I/O buffers (parsed outside the command lock): what a GET returns was written by somebody
+    for _ in range(8 if tier == "quick" else 80):
+        for n in (2, 4, 8):
+            add([[("SET", [b"big%d" % i, bytes([65 + i]) * 8192 + b"#%d" % i]), ("GET", [b"big%d" % i])] for i in range(n)], "%d clients SET / GET their own key with an 8 KB value" % n)
+            add([[("SET", [b"shared", bytes([97 + i]) * 5000]), ("GET", [b"shared"])] for i in range(n)], "%d clients SET / GET a shared key with 5 KB values" % n)
     # random short histories over 1..3 keys by 2..8 clients
     for _ in range(1500 if tier == "quick" else 30000):
         keys = [b"k1", b"k2", b"k3"][:rng.randint(1, 3)]
